@@ -250,8 +250,66 @@ func c10Merged(c *Ctx) {
 	c.R.Floor(rule+"/owner-writes", n, 2)
 }
 
+// c10AlwaysSync: the two Batch*DomainRouting entry points reach syncOwner on
+// every exit except those taken because an operand is absent (nil receiver /
+// cache / datapath) or an error occurred.  In particular an empty snapshot
+// still replaces the owner's previous snapshot.
+func c10AlwaysSync(c *Ctx) {
+	const rule = "WIRING"
+	for _, name := range []string{"controlPlaneCore.BatchUpdateDomainRouting", "controlPlaneCore.BatchRemoveDomainRouting"} {
+		f := c.fn(rule, "control", name)
+		if f == nil {
+			continue
+		}
+		info := f.Info()
+		g := f.Graph()
+		sync := nodeCalls(info, "control.domainRoutingTracker.syncOwner")
+		if len(g.Find(sync)) == 0 {
+			c.R.Checkf(rule, "every-snapshot-reaches-the-tracker@"+name, c.pos(f.Pos()), false, "no syncOwner call in %s", name)
+			continue
+		}
+		ex := g.ExitsAvoidingE(g.Entry(), sync, func(from *cfg.Block, si int) bool {
+			cond, _, _, ok := g.Cond(from)
+			if !ok {
+				return true
+			}
+			return !absentEdge(info, cond, si == 0)
+		})
+		if len(ex) == 0 {
+			c.R.Checkf(rule, "every-snapshot-reaches-the-tracker@"+name, c.pos(f.Pos()), true, "every exit of %s that is not taken for a nil operand or an error passes syncOwner: an empty snapshot (rejected / NODATA / unspecified-only answer) still replaces the owner's previous addresses", name)
+		} else {
+			c.R.Checkf(rule, "every-snapshot-reaches-the-tracker@"+name, c.pos(ex[0].Pos), false, "%s returns at %s (lines %s) without syncing the owner although nothing is absent and no error occurred: the owner keeps its previous snapshot, so addresses of a refreshed-to-empty answer stay in the kernel table", name, c.pos(ex[0].Pos), traceStr(c.P, ex[0].Trace))
+		}
+	}
+	// a refreshed entry is published in the cache before its routing is installed
+	if f := c.fn(rule, "control", "DnsController.__updateDnsCacheDeadline"); f != nil {
+		info := f.Info()
+		isCb := func(n ast.Node) bool {
+			hit := false
+			ownCalls(n, func(call *ast.CallExpr, _ bool) {
+				if strings.HasSuffix(core.ExprStr(call.Fun), ".cacheAccessCallback") {
+					hit = true
+				}
+			})
+			return hit
+		}
+		isStore := func(n ast.Node) bool {
+			hit := false
+			ownCalls(n, func(call *ast.CallExpr, _ bool) {
+				if recv, nm, ok := methodCall(call); ok && nm == "Store" && strings.HasSuffix(core.ExprStr(recv), ".dnsCache") {
+					hit = true
+				}
+			})
+			return hit
+		}
+		_ = info
+		c.dominated(rule, "publish-before-install@__updateDnsCacheDeadline", f, isCb, isStore, "the install callback (cacheAccessCallback)", "dnsCache.Store of the new entry (an eviction of the entry being replaced that runs in between must find the new entry, otherwise its delete callback wipes the owner snapshot just installed)")
+	}
+}
+
 func c10Wiring(c *Ctx) {
 	const rule = "WIRING"
+	c10AlwaysSync(c)
 	// removal passes the empty snapshot
 	if f := c.fn(rule, "control", "controlPlaneCore.BatchRemoveDomainRouting"); f != nil {
 		ok := false
